@@ -1,11 +1,17 @@
 /-
   C15.lean — first facts for "strings: exact escapes, interpolation equals concatenation".
 
-  Only the one-step behaviour of the string scanner (`strStep`, SeedModel/Lex.lean: one iteration of the
-  loop of `next_str_literal`) and a few whole-literal evaluations are stated here; the theorems of
-  DESIGN.md §6 C15 (`str_roundtrip`, `slots_exact`, `interpolate_concat`, …) are still to be added.
+  First the one-step behaviour of the string scanner (`strStep`, SeedModel/Lex.lean: one iteration of the
+  loop of `next_str_literal`) and a few whole-literal evaluations; then the theorems of DESIGN.md §6 C15:
+  T1 `str_roundtrip`, T2 `hex_escape`, T3 `slots_exact`, T4 `interpolate_concat`, T5 `utf8_roundtrip`,
+  `len_is_bytes`, `concat_bytes`, `str_eq` (helper lemmas in Lemmas/C15Lex.lean, C15Interp.lean, C15Utf8.lean).
 -/
 import SeedModel.Lex
+import SeedModel.Prim
+import SeedModel.Eval
+import SeedProofs.Lemmas.C15Lex
+import SeedProofs.Lemmas.C15Utf8
+import SeedProofs.Lemmas.C15Interp
 namespace Seed.C15
 open Seed
 
@@ -79,5 +85,336 @@ theorem error_examples :
     (lexAll c!"\"a$b\"").2 = some (LexError.UnescapedDollar (1, 3)) ∧
     (lexAll c!"$\"a$b\"").2 = some (LexError.InvalidInterpolationStart (1, 5) 'b') := by
   decide
+
+/-! ## T1 — a literal denotes exactly its characters (`str_roundtrip`)
+
+`escapeChars`, `Seg` and the segment lemmas are in `Lemmas/C15Lex.lean`.  The scanner after a literal is the
+scanner before it advanced over its characters (`Scanner.advance`, whose line/column are `posOf`, `Scan.lean`). -/
+
+/-- the loop, any accumulator in the `None` state: `escapeChars cs` followed by the closing quote decodes to
+    `cs` (pushed on what was there) and stops just behind the quote — for arbitrary Unicode `cs` -/
+theorem str_roundtrip_acc (interp : Bool) (cs rest : List Char) (l c : Nat) (a : StrAcc) (h : a.state = .None) :
+    strLoop interp (escapeChars cs ++ '"' :: rest) l c a =
+      .ok (a.pushAll cs, (Scanner.mk (escapeChars cs ++ '"' :: rest) l c).advance ((escapeChars cs).length + 1)) := by
+  have h1 := piece_run interp cs ⟨escapeChars cs ++ '"' :: rest, l, c⟩ ('"' :: rest) a rfl h
+  have hr : ((Scanner.mk (escapeChars cs ++ '"' :: rest) l c).advance (escapeChars cs).length).rest = '"' :: rest := by
+    rw [Scanner.advance_rest]; simp
+  have h2 := strLoopS_done hr (step_quote interp (a.pushAll cs) _ h)
+  rw [Scanner.advance_succ', ← h2, ← h1]; rfl
+
+example : ({ StrAcc.init with chars := c!"é", n := 1 } : StrAcc).state = .None := rfl
+
+/-- from the initial accumulator: the decoded characters are `cs`, and there are no slots -/
+theorem str_roundtrip_loop (interp : Bool) (cs rest : List Char) (l c : Nat) :
+    ∃ acc, strLoop interp (escapeChars cs ++ '"' :: rest) l c StrAcc.init =
+        .ok (acc, (Scanner.mk (escapeChars cs ++ '"' :: rest) l c).advance ((escapeChars cs).length + 1)) ∧
+      acc.chars.reverse = cs ∧ acc.slots = [] ∧ acc.n = cs.length := by
+  refine ⟨_, str_roundtrip_acc interp cs rest l c StrAcc.init rfl, ?_, rfl, ?_⟩
+  · simp [StrAcc.pushAll, StrAcc.init]
+  · simp [StrAcc.pushAll, StrAcc.init]
+
+/-- T1: the literal `"…"` whose body is `escapeChars cs` is the token `StrLiteral cs` -/
+theorem str_roundtrip (cs rest : List Char) (l c : Nat) :
+    lexStr false ⟨'"' :: (escapeChars cs ++ '"' :: rest), l, c⟩ =
+      .ok (Token.StrLiteral cs,
+        (Scanner.mk ('"' :: (escapeChars cs ++ '"' :: rest)) l c).advance ((escapeChars cs).length + 2)) :=
+  (Seg.piece false cs).lexStr '"' rest l c
+
+/-- T1, interpolating variant: `escapeChars` never leaves a `$` unescaped, so there are no slots -/
+theorem str_roundtrip_interp (cs rest : List Char) (q : Char) (l c : Nat) :
+    lexStr true ⟨q :: (escapeChars cs ++ '"' :: rest), l, c⟩ =
+      .ok (Token.InterpStrLiteral cs [],
+        (Scanner.mk (q :: (escapeChars cs ++ '"' :: rest)) l c).advance ((escapeChars cs).length + 2)) :=
+  (Seg.piece true cs).lexStr q rest l c
+
+/-- T1 for a whole source text: `"…"` is exactly one token, and lexing reports no error -/
+theorem str_roundtrip_source (cs : List Char) :
+    (lexAll ('"' :: (escapeChars cs ++ ['"']))).1.map (·.tok) = [Token.StrLiteral cs] ∧
+    (lexAll ('"' :: (escapeChars cs ++ ['"']))).2 = none :=
+  (Seg.piece false cs).lexAll_plain
+
+example : escapeChars c!"aé\\\"$\n\r€{}😀" = c!"aé\\\\\\\"\\$\\n\\r€{}😀" := by decide
+example : lexStr false ⟨c!"\"aé\\\\\\\"\\$\\n\\r€{}😀\" + 1", 1, 1⟩ =
+    .ok (Token.StrLiteral c!"aé\\\"$\n\r€{}😀", ⟨c!" + 1", 1, 19⟩) := by rfl
+
+/-! ## T2 — `\xHH` (`hex_escape`) -/
+
+/-- T2: between any escaped texts, `\xh1h2` contributes exactly the character with code `a * 16 + b` -/
+theorem hex_escape (interp : Bool) (p r rest : List Char) (h1 h2 q : Char) (a b n : Nat) (l c : Nat)
+    (e1 : hexVal h1 = some a) (e2 : hexVal h2 = some b) (hn : n = a * 16 + b) :
+    lexStr interp ⟨q :: ((escapeChars p ++ ['\\', 'x', h1, h2] ++ escapeChars r) ++ '"' :: rest), l, c⟩ =
+      .ok (strTok interp (p ++ [Char.ofNat n] ++ r) [],
+        (Scanner.mk (q :: ((escapeChars p ++ ['\\', 'x', h1, h2] ++ escapeChars r) ++ '"' :: rest)) l c).advance
+          ((escapeChars p ++ ['\\', 'x', h1, h2] ++ escapeChars r).length + 2)) := by
+  subst hn
+  exact (((Seg.piece interp p).append (Seg.hex interp h1 h2 a b e1 e2)).append (Seg.piece interp r)).lexStr q rest l c
+
+example : hexVal 'e' = some 14 ∧ hexVal '9' = some 9 ∧ 233 = 14 * 16 + 9 ∧ Char.ofNat 233 = 'é' := by decide
+
+/-- the two-digit lower-case hex spelling of a code below 256 -/
+def hexDigit (k : Nat) : Char := if k < 10 then Char.ofNat (48 + k) else Char.ofNat (87 + k)
+def hexEscape (ch : Char) : List Char := ['\\', 'x', hexDigit (ch.toNat / 16), hexDigit (ch.toNat % 16)]
+
+theorem hexVal_hexDigit : ∀ k, k < 16 → hexVal (hexDigit k) = some k := by decide
+
+/-- T2: a character below U+0100 other than `" \ $` may be written raw or as its `\xHH` escape: same token -/
+theorem hex_escape_same_token (p r rest : List Char) (ch : Char) (l c : Nat) (hlt : ch.toNat < 256)
+    (n1 : ch ≠ '\\') (n2 : ch ≠ '"') (n3 : ch ≠ '$') :
+    (∃ s1, lexStr false ⟨'"' :: ((escapeChars p ++ hexEscape ch ++ escapeChars r) ++ '"' :: rest), l, c⟩ =
+      .ok (Token.StrLiteral (p ++ [ch] ++ r), s1)) ∧
+    (∃ s2, lexStr false ⟨'"' :: ((escapeChars p ++ [ch] ++ escapeChars r) ++ '"' :: rest), l, c⟩ =
+      .ok (Token.StrLiteral (p ++ [ch] ++ r), s2)) := by
+  constructor
+  · have h := hex_escape false p r rest (hexDigit (ch.toNat / 16)) (hexDigit (ch.toNat % 16)) '"'
+      (ch.toNat / 16) (ch.toNat % 16) ch.toNat l c (hexVal_hexDigit _ (by omega)) (hexVal_hexDigit _ (by omega))
+      (by omega)
+    rw [Char.ofNat_toNat] at h
+    exact ⟨_, h⟩
+  · exact ⟨_, (((Seg.piece false p).append (Seg.raw false ch n1 n2 n3)).append (Seg.piece false r)).lexStr '"' rest l c⟩
+
+example : hexEscape 'A' = c!"\\x41" ∧ hexEscape '\n' = c!"\\x0a" ∧ hexEscape 'é' = c!"\\xe9" ∧
+    'é'.toNat < 256 ∧ 'é' ≠ '\\' ∧ 'é' ≠ '"' ∧ 'é' ≠ '$' := by decide
+
+/-! ## T3 — slots are recorded exactly (`slots_exact`)
+
+`Balanced`, `render`, `decoded`, `slotsOf` are in `Lemmas/C15Lex.lean`; `SlotsOK` in `Lemmas/C15Interp.lean`. -/
+
+/-- T3, one slot: pieces `p0`, `p1` (any text, written escaped) around `${e}` with `e` brace-balanced (any
+    other characters, quotes and backslashes included, are copied raw).  The token carries the decoded pieces and
+    the raw slot; the slot is `(offset of "$", offset just past "}")` in characters; and the slices the
+    evaluator takes are `p0`, `e`, `p1`. -/
+theorem slots_exact_one (p0 e p1 rest : List Char) (q : Char) (l c : Nat) (hb : Balanced e) :
+    lexStr true ⟨q :: ((escapeChars p0 ++ ('$' :: '{' :: e ++ ['}']) ++ escapeChars p1) ++ '"' :: rest), l, c⟩ =
+      .ok (Token.InterpStrLiteral (p0 ++ ('$' :: '{' :: e ++ ['}']) ++ p1) [(p0.length, p0.length + e.length + 3)],
+        (Scanner.mk (q :: ((escapeChars p0 ++ ('$' :: '{' :: e ++ ['}']) ++ escapeChars p1) ++ '"' :: rest)) l c).advance
+          ((escapeChars p0 ++ ('$' :: '{' :: e ++ ['}']) ++ escapeChars p1).length + 2)) ∧
+    sliceChars (p0 ++ ('$' :: '{' :: e ++ ['}']) ++ p1) 0 p0.length = p0 ∧
+    sliceChars (p0 ++ ('$' :: '{' :: e ++ ['}']) ++ p1) (p0.length + 2) (p0.length + e.length + 3 - 1) = e ∧
+    (p0 ++ ('$' :: '{' :: e ++ ['}']) ++ p1).drop (p0.length + e.length + 3) = p1 := by
+  refine ⟨?_, ?_, ?_, ?_⟩
+  · have h := (((Seg.piece true p0).append (Seg.slot e hb)).append (Seg.piece true p1)).lexStr q rest l c
+    simpa [strTok] using h
+  · have : p0 ++ ('$' :: '{' :: e ++ ['}']) ++ p1 = [] ++ p0 ++ (('$' :: '{' :: e ++ ['}']) ++ p1) := by simp
+    rw [this]; exact sliceChars_mid _ _ _ _ _ rfl (by simp)
+  · have : p0 ++ ('$' :: '{' :: e ++ ['}']) ++ p1 = (p0 ++ ['$', '{']) ++ e ++ ('}' :: p1) := by simp
+    rw [this]; exact sliceChars_mid _ _ _ _ _ (by simp) (by simp; omega)
+  · have : p0 ++ ('$' :: '{' :: e ++ ['}']) ++ p1 = (p0 ++ ('$' :: '{' :: e ++ ['}'])) ++ p1 := by simp
+    rw [this]; exact List.drop_left' (by simp; omega)
+
+example : Balanced c!"f({\"{}\": \"\\\"\"})" := by decide
+example : ¬ Balanced c!"}{" ∧ ¬ Balanced c!"{" := by decide
+
+/-- T3: any number of slots.  The body `render p0 [(e1, p1), …]` lexes to the text `decoded p0 [(e1, p1), …]`
+    with the slot list `slotsOf 0 …`, i.e. the `i`-th slot is (offset of the `i`-th `${`, offset just past its
+    `}`), counted in characters of the decoded text. -/
+theorem slots_exact (p0 : List Char) (segs : List (List Char × List Char)) (rest : List Char) (q : Char) (l c : Nat)
+    (hb : ∀ x ∈ segs, Balanced x.1) :
+    lexStr true ⟨q :: (render p0 segs ++ '"' :: rest), l, c⟩ =
+      .ok (Token.InterpStrLiteral (decoded p0 segs) (slotsOf 0 p0 segs),
+        (Scanner.mk (q :: (render p0 segs ++ '"' :: rest)) l c).advance ((render p0 segs).length + 2)) := by
+  simpa [strTok] using (Seg.render segs p0 hb).lexStr q rest l c
+
+/-- T3 for a whole source text `$"…"` -/
+theorem slots_exact_source (p0 : List Char) (segs : List (List Char × List Char)) (hb : ∀ x ∈ segs, Balanced x.1) :
+    (lexAll ('$' :: '"' :: (render p0 segs ++ ['"']))).1.map (·.tok) =
+      [Token.InterpStrLiteral (decoded p0 segs) (slotsOf 0 p0 segs)] ∧
+    (lexAll ('$' :: '"' :: (render p0 segs ++ ['"']))).2 = none :=
+  (Seg.render segs p0 hb).lexAll_interp
+
+/-- T3, consequence: cutting the decoded text at the recorded offsets gives back the pieces and slot texts, in
+    the very pattern `interpolate` uses (`SlotsOK`) -/
+theorem slots_exact_slices (p0 : List Char) (segs : List (List Char × List Char)) :
+    SlotsOK (decoded p0 segs) 0 p0 segs (slotsOf 0 p0 segs) := by
+  simpa using slotsOK_decoded segs [] p0
+
+/-- T3, by index: the `i`-th recorded slot delimits the `i`-th slot text -/
+theorem slots_exact_get {s : List Char} : ∀ {last : Nat} {p0 : List Char} {segs : List (List Char × List Char)}
+    {slots : List (Nat × Nat)}, SlotsOK s last p0 segs slots → ∀ (i : Nat) (h : i < segs.length),
+      ∃ start stop, slots[i]? = some (start, stop) ∧ sliceChars s (start + 2) (stop - 1) = (segs[i]'h).1 := by
+  intro last p0 segs
+  induction segs generalizing last p0 with
+  | nil => intro slots _ i h; simp at h
+  | cons x r ih =>
+    obtain ⟨e, p⟩ := x
+    intro slots hs i h
+    obtain ⟨start, stop, rest, rfl, _, h2, h3⟩ := hs
+    cases i with
+    | zero => exact ⟨start, stop, rfl, h2⟩
+    | succ i => simpa using ih h3 i (by simpa using h)
+
+example : render c!"é\n" [(c!"x", c!"}{"), (c!"f({})", c!"$")] = c!"é\\n${x}}{${f({})}\\$" ∧
+    decoded c!"é\n" [(c!"x", c!"}{"), (c!"f({})", c!"$")] = c!"é\n${x}}{${f({})}$" ∧
+    slotsOf 0 c!"é\n" [(c!"x", c!"}{"), (c!"f({})", c!"$")] = [(2, 6), (8, 16)] ∧
+    (∀ x ∈ [(c!"x", c!"}{"), (c!"f({})", c!"$")], Balanced x.1) := by decide
+
+/-! ## T4 — interpolation is concatenation (`interpolate_concat`)
+
+`SlotsEval sc s n σ slots vs σ'` (Lemmas/C15Interp.lean): every slot's text parses, and evaluates **in the
+caller's scope chain `sc`** — with the state left by the previous slot and the fuel `interpolate n` gives it —
+to a string whose bytes decode to the corresponding `vs`; `σ'` is the final state. -/
+
+/-- T4: the result is `acc ++ piece_0 ++ v_1 ++ piece_1 ++ … ++ v_k ++ piece_k`, the pieces being the
+    `sliceChars` of `s` between the slots (`joinPieces`) -/
+theorem interpolate_concat {sc : List Addr} {s : List Char} {n : Nat} {σ σ' : State} {slots : List (Nat × Nat)}
+    {vs : List (List Char)} (h : SlotsEval sc s n σ slots vs σ') (hn : slots.length < n) (loc : Loc) (last : Nat)
+    (acc : List Char) :
+    interpolate n σ sc s slots loc last acc = .ok (acc ++ joinPieces s last slots vs) σ' := by
+  have h1 := interpolate_prefix h [] loc last acc
+  rw [List.append_nil] at h1
+  obtain ⟨k, hk⟩ : ∃ k, n - slots.length = k + 1 := ⟨n - slots.length - 1, by omega⟩
+  rw [h1, hk, interpolate_nil]
+  simp [joinPieces, List.append_assoc]
+
+/-- T4 with one fuel `m` for all slots (fuel monotonicity, `evalExpr_fuel_mono`) -/
+theorem interpolate_concat_uniform {sc : List Addr} {s : List Char} {m n : Nat} {σ σ' : State}
+    {slots : List (Nat × Nat)} {vs : List (List Char)} (h : SlotsEvalU sc s m σ slots vs σ')
+    (hn : m + slots.length < n) (loc : Loc) (last : Nat) (acc : List Char) :
+    interpolate n σ sc s slots loc last acc = .ok (acc ++ joinPieces s last slots vs) σ' :=
+  interpolate_concat (h.toEval n (by omega)) (by omega) loc last acc
+
+/-- T4, error: after any successfully evaluated slots, a slot whose value is not a string is reported at the
+    slot (`line`, `col + start + 4`) with the kind of the value -/
+theorem interpolate_not_string {sc : List Addr} {s : List Char} {n k : Nat} {σ σ1 σ2 : State}
+    {pre r : List (Nat × Nat)} {vs : List (List Char)} {start stop : Nat} {ast : Expr} {v : SVal}
+    (h : SlotsEval sc s n σ pre vs σ1) (hn : n = pre.length + (k + 1))
+    (hp : parseExprTop (sliceChars s (start + 2) (stop - 1)) = .ok ast)
+    (he : evalExpr k σ1 sc ast = .ok v σ2) (hv : ∀ bs, v.v ≠ .str bs) (loc : Loc) (last : Nat) (acc : List Char) :
+    interpolate n σ sc s (pre ++ (start, stop) :: r) loc last acc =
+      .err (.atLoc loc.1 (loc.2 + start + 4) (.leaf (Gen.Leaf.InterpolatedValueNotString v.v.kind))) σ2 := by
+  rw [interpolate_prefix h, show n - pre.length = k + 1 by omega, interpolate_cons_not_string hp he hv]
+
+/-- T4, error: a slot whose evaluation fails reports that error, located at the slot -/
+theorem interpolate_slot_error {sc : List Addr} {s : List Char} {n k : Nat} {σ σ1 σ2 : State}
+    {pre r : List (Nat × Nat)} {vs : List (List Char)} {start stop : Nat} {ast : Expr} {e : Err}
+    (h : SlotsEval sc s n σ pre vs σ1) (hn : n = pre.length + (k + 1))
+    (hp : parseExprTop (sliceChars s (start + 2) (stop - 1)) = .ok ast)
+    (he : evalExpr k σ1 sc ast = .err e σ2) (loc : Loc) (last : Nat) (acc : List Char) :
+    interpolate n σ sc s (pre ++ (start, stop) :: r) loc last acc = .err (.atLoc loc.1 (loc.2 + start + 4) e) σ2 := by
+  rw [interpolate_prefix h, show n - pre.length = k + 1 by omega, interpolate_cons_err hp he]
+
+theorem slotsOf_length (segs : List (List Char × List Char)) : ∀ (off : Nat) (p0 : List Char),
+    (slotsOf off p0 segs).length = segs.length := by
+  induction segs with
+  | nil => intro _ _; rfl
+  | cons x r ih => obtain ⟨e, p⟩ := x; intro off p0; simp [slotsOf, ih]
+
+/-- T3 + T4: for a literal written as `render p0 [(e1, p1), …]`, the value is `p0 ++ v1 ++ p1 ++ … ++ vk ++ pk` -/
+theorem interpolate_lexed {sc : List Addr} {n : Nat} {σ σ' : State} (p0 : List Char)
+    (segs : List (List Char × List Char)) {vs : List (List Char)}
+    (h : SlotsEval sc (decoded p0 segs) n σ (slotsOf 0 p0 segs) vs σ') (hn : (slotsOf 0 p0 segs).length < n)
+    (loc : Loc) :
+    interpolate n σ sc (decoded p0 segs) (slotsOf 0 p0 segs) loc 0 [] = .ok (weave p0 segs vs) σ' := by
+  rw [interpolate_concat h hn, List.nil_append]
+  rw [joinPieces_of_slotsOK _ segs 0 p0 _ vs (slots_exact_slices p0 segs) (by rw [h.length_le.2, slotsOf_length])]
+
+/-- the value of an interpolated literal expression is the UTF-8 encoding of that concatenation -/
+theorem interp_literal_value {sc : List Addr} {s : List Char} {n : Nat} {σ σ' : State} {slots : List (Nat × Nat)}
+    {vs : List (List Char)} (h : SlotsEval sc s n σ slots vs σ') (hn : slots.length < n) (loc : Loc) :
+    evalExpr (n + 1) σ sc (.mk (.Str s (some slots)) loc) =
+      .ok (SVal.plain (.str (utf8Encode (joinPieces s 0 slots vs)))) σ' := by
+  rw [evalExpr, interpolate_concat h hn]
+  simp [Res.bind]
+
+/-- a plain literal expression denotes the UTF-8 encoding of its characters -/
+theorem plain_literal_value (n : Nat) (σ : State) (sc : List Addr) (s : List Char) (loc : Loc) :
+    evalExpr (n + 1) σ sc (.mk (.Str s none) loc) = .ok (SVal.plain (.str (utf8Encode s))) σ := by
+  rw [evalExpr]
+
+/-- a state for the examples: scope 0 holds `x = "é"` and `k = 7` -/
+def σi : State :=
+  ⟨#[.scope [(c!"x", SVal.plain (.str (utf8Encode c!"é")), (1, 0)), (c!"k", SVal.plain (.int 7), (2, 0))]], []⟩
+
+/-- `$"a${x}b${x}"` in that state: both slots evaluate in scope chain `[0]` -/
+example : SlotsEval [0] c!"a${x}b${x}" 3 σi [(1, 5), (6, 10)] [c!"é", c!"é"] σi :=
+  .cons (ast := .mk (.Var c!"x") (1, 1)) (v := SVal.plain (.str (utf8Encode c!"é"))) (by with_unfolding_all rfl)
+    (by with_unfolding_all rfl) rfl (by rfl)
+    (.cons (ast := .mk (.Var c!"x") (1, 1)) (v := SVal.plain (.str (utf8Encode c!"é"))) (by with_unfolding_all rfl)
+      (by with_unfolding_all rfl) rfl (by rfl) (.nil _ _))
+
+example : joinPieces c!"a${x}b${x}" 0 [(1, 5), (6, 10)] [c!"é", c!"é"] = c!"aébé" := by decide
+
+/-- `$"a${k}"`: the slot is an integer -/
+example : parseExprTop (sliceChars c!"a${k}" (1 + 2) (5 - 1)) = .ok (.mk (.Var c!"k") (1, 1)) ∧
+    evalExpr 1 σi [0] (.mk (.Var c!"k") (1, 1)) = .ok (SVal.plain (.int 7)) σi ∧
+    ∀ bs, (SVal.plain (.int 7)).v ≠ .str bs :=
+  ⟨by with_unfolding_all rfl, by with_unfolding_all rfl, fun _ h => by cases h⟩
+
+/-- the theorems applied: `$"a${x}b${x}"` is `aébé`; and with one fuel for both slots -/
+example : interpolate 3 σi [0] c!"a${x}b${x}" [(1, 5), (6, 10)] (4, 2) 0 [] = .ok c!"aébé" σi := by
+  have h : SlotsEval [0] c!"a${x}b${x}" 3 σi [(1, 5), (6, 10)] [c!"é", c!"é"] σi :=
+    .cons (ast := .mk (.Var c!"x") (1, 1)) (v := SVal.plain (.str (utf8Encode c!"é"))) (by with_unfolding_all rfl)
+      (by with_unfolding_all rfl) rfl (by rfl)
+      (.cons (ast := .mk (.Var c!"x") (1, 1)) (v := SVal.plain (.str (utf8Encode c!"é"))) (by with_unfolding_all rfl)
+        (by with_unfolding_all rfl) rfl (by rfl) (.nil _ _))
+  exact interpolate_lexed c!"a" [(c!"x", c!"b"), (c!"x", c!"")] h (by decide) (4, 2)
+
+example : SlotsEvalU [0] c!"a${x}" 1 σi [(1, 5)] [c!"é"] σi ∧ 1 + [(1, 5)].length < 3 :=
+  ⟨.cons (ast := .mk (.Var c!"x") (1, 1)) (v := SVal.plain (.str (utf8Encode c!"é"))) (by with_unfolding_all rfl)
+    (by with_unfolding_all rfl) rfl (by rfl) (.nil _), by decide⟩
+
+/-- `$"a${k}"` at `(4, 2)`: "interpolated values can only be strings", at column `2 + 1 + 4` -/
+example : interpolate 2 σi [0] c!"a${k}" [(1, 5)] (4, 2) 0 [] =
+    .err (.atLoc 4 7 (.leaf (Gen.Leaf.InterpolatedValueNotString .Int))) σi :=
+  interpolate_not_string (pre := []) (k := 1) (.nil _ _) rfl (ast := .mk (.Var c!"k") (1, 1))
+    (v := SVal.plain (.int 7)) (by with_unfolding_all rfl) (by with_unfolding_all rfl) (fun _ h => by cases h) (4, 2) 0 []
+
+/-- `$"a${z}"`: the slot's own error (`z` is not defined), located at the slot -/
+example : interpolate 2 σi [0] c!"a${z}" [(1, 5)] (4, 2) 0 [] =
+    .err (.atLoc 4 7 (.atLoc 1 1 (.leaf (Gen.Leaf.Undefined c!"z")))) σi :=
+  interpolate_slot_error (pre := []) (k := 1) (.nil _ _) rfl (ast := .mk (.Var c!"z") (1, 1))
+    (by with_unfolding_all rfl) (by with_unfolding_all rfl) (4, 2) 0 []
+
+example : SlotsOK c!"a${x}b" 0 c!"a" [(c!"x", c!"b")] [(1, 5)] := slots_exact_slices c!"a" [(c!"x", c!"b")]
+
+/-! ## T5 — bytes -/
+
+/-- the encoder/decoder round trip, for arbitrary Unicode text -/
+theorem utf8_roundtrip (cs : List Char) : utf8Decode (utf8Encode cs) = .ok cs := by
+  unfold utf8Decode
+  rw [C15U.decode_encode_aux cs _ 0 [] (by have := C15U.length_le_encode cs; omega)]
+  simp
+
+/-- encoding distributes over concatenation -/
+theorem concat_bytes (a b : List Char) : utf8Encode (a ++ b) = utf8Encode a ++ utf8Encode b := by
+  simp [utf8Encode]
+
+/-- `+` on strings concatenates the byte sequences, hence the texts -/
+theorem plus_concat (n : Nat) (σ : State) (loc : Loc) (a b : List Char) :
+    applyBinOp n σ .Sum loc (.str (utf8Encode a)) (.str (utf8Encode b)) = .ok (.str (utf8Encode (a ++ b))) σ := by
+  simp [applyBinOp, concat_bytes]
+
+/-- `->len()` is the number of bytes -/
+theorem len_is_bytes (n : Nat) (σ : State) (bs : Bytes) (src : Option Val) (cs : List Char)
+    (h : utf8Decode bs = .ok cs) :
+    callBuiltin n σ .strLen (some ⟨.str bs, src⟩) [] = .ok (SVal.plain (.int (Int.ofNat bs.length))) σ := by
+  simp [callBuiltin, assertArgs, h]
+
+example : utf8Decode [0xC3, 0xA9, 0x61] = .ok c!"éa" := by rfl
+
+/-- … so for a text it is the length of its UTF-8 encoding (not the number of characters) -/
+theorem len_of_text (n : Nat) (σ : State) (cs : List Char) (src : Option Val) :
+    callBuiltin n σ .strLen (some ⟨.str (utf8Encode cs), src⟩) [] =
+      .ok (SVal.plain (.int (Int.ofNat (utf8Encode cs).length))) σ :=
+  len_is_bytes n σ _ src cs (utf8_roundtrip cs)
+
+example : (utf8Encode c!"é€😀a").length = 10 ∧ c!"é€😀a".length = 4 := by decide
+
+/-- `==` on strings is equality of the byte sequences -/
+theorem str_eq (n : Nat) (σ : State) (a b : Bytes) : eqVal (n + 1) σ (.str a) (.str b) = .ok (a == b) := by
+  rw [eqVal]
+
+/-- equal texts are `==`, different texts are not (the encoding is injective) -/
+theorem str_eq_text (n : Nat) (σ : State) (a b : List Char) :
+    eqVal (n + 1) σ (.str (utf8Encode a)) (.str (utf8Encode b)) = .ok (decide (a = b)) := by
+  rw [str_eq]
+  congr 1
+  by_cases h : a = b
+  · subst h; simp
+  · have : utf8Encode a ≠ utf8Encode b := by
+      intro e
+      have h1 := utf8_roundtrip a
+      rw [e, utf8_roundtrip b] at h1
+      exact h (by injection h1 with h1; exact h1.symm)
+    simp [h, this]
 
 end Seed.C15
